@@ -121,7 +121,19 @@ impl Analysis<Expr> for ExprAnalysis {
             unsafe { std::mem::transmute::<&mut f32, &mut F32>(&mut to.rows) },
             F32::from(from.rows),
         );
-        let merge_order = egg::merge_max(&mut to.orderby, from.orderby);
+        // The rows of a class are the same for every plan in it, their order is not (a class can
+        // hold `hashagg` next to `sortagg`, `hashjoin` next to `mergejoin`): the class is ordered
+        // only by what all of its plans guarantee.
+        let merge_order = {
+            let common = (to.orderby.iter().zip(from.orderby.iter()))
+                .take_while(|(a, b)| a == b)
+                .count();
+            let did = DidMerge(common < to.orderby.len(), common < from.orderby.len());
+            if did.0 {
+                to.orderby = to.orderby[..common].into();
+            }
+            did
+        };
         merge_const | merge_range | merge_columns | merge_schema | merge_rows | merge_order
     }
 
